@@ -16,7 +16,7 @@ from ..mcworld import MC, Draw
 ID = 'C13'
 FUNCTIONS = ['geophires_monte_carlo.MC_GeoPHIRES3:work_package', 'geophires_monte_carlo.MC_GeoPHIRES3:main']
 UNIT_TIMEOUT = {'quick': 240, 'thorough': 900}
-KW = {'quick': [(2, 2), (3, 2)], 'thorough': [(2, 2), (3, 2), (3, 3), (4, 2)]}
+KW = {'quick': [(2, 2), (3, 2)], 'thorough': [(2, 2), (3, 2), (3, 3), (4, 2), (4, 3), (5, 2), (5, 3), (6, 2), (4, 4)]}
 SETTINGS = [
     [['Reservoir Temperature', 'normal', '250', '25'], ['Reservoir Porosity', 'uniform', '8', '12']],
     [['Reservoir Thickness', 'triangular', '0.2', '0.25', '0.3'], ['Reservoir Area', 'lognormal', '4', '0.1']],
@@ -33,7 +33,7 @@ META = {
                    'one row is appended iff the iteration succeeded.',
     'bounds': {t: {'(iterations K, workers W)': KW[t], 'settings': SETTINGS} for t in KW},
     'outside': ['statistical quality of numpy\'s PRNG (idealised: distinct states / indices give distinct continuous variates)',
-                'more than 4 iterations / 3 workers (two workers suffice for the inheritance argument)', 'the OS scheduler beyond the assignment of iterations to workers'],
+                'more than 6 iterations / 4 workers (two workers suffice for the inheritance argument)', 'the OS scheduler beyond the assignment of iterations to workers'],
     'assumptions': ['os.fork copies the parent\'s generator state; OS entropy reseeds are pairwise distinct (DESIGN Appendix D)',
                     'ProcessPoolExecutor workers are forked from a parent that has drawn nothing'],
     'stubs': ['MC_GeoPHIRES3.np.random -> symbolic generator; open/Path/shutil/tempfile/uuid/Locker/clients -> in-memory world'],
@@ -179,7 +179,7 @@ def run_unit(unit):
     def fn():
         return run_schedule(K, W, [list(s) for s in settings], code)
     n = 0
-    for pr in core.explore(fn, max_paths=5000):
+    for pr in core.explore(fn, max_paths=200000):
         log.path(pr)
         n += 1
         if pr.error is not None:
